@@ -97,6 +97,17 @@ fn main() {
                 }
             }
         }
+        // names <font> : name records and every reference to a name id (debugging aid)
+        "names" => {
+            let data = std::fs::read(&args[2]).unwrap();
+            let font = write_fonts::read::FontRef::new(&data).unwrap();
+            for (id, v) in eval::names::name_table(&font) {
+                println!("name {id} {v:?}");
+            }
+            for (what, id, allowed) in eval::names::references(&font).unwrap() {
+                println!("ref {what} -> {id} (reserved allowed: {allowed:?})");
+            }
+        }
         // c16 <manifest.json> <font> : designspace rules vs compiled FeatureVariations
         "c16" => {
             let man: serde_json::Value = serde_json::from_slice(&std::fs::read(&args[2]).unwrap()).unwrap();
